@@ -35,7 +35,7 @@ pub struct Plan {
 }
 
 pub const KINDS: &[&str] = &[
-    "tx", "tx", "tx", "tx-2in", "tx-conflict", "tx-dup", "stage", "bundle", "bundle", "peer-confirm", "peer-partial", "peer-conflict", "peer-invalid", "peer-plain", "reorg",
+    "tx", "tx", "tx", "tx-2in", "tx-conflict", "tx-conflict-2nd-input", "tx-dup", "stage", "bundle", "bundle", "peer-confirm", "peer-partial", "peer-conflict", "peer-invalid", "peer-plain", "reorg",
 ];
 
 fn gen(seed: u64, tier: Tier) -> Plan {
@@ -59,7 +59,7 @@ impl Scenario for C14 {
     fn meta(&self) -> Meta {
         Meta {
             level: "exploration",
-            rule: "run = one real node (consensus processor, timer-driven bundling, real mempool) preloaded with 2-5 blocks; 4..40/120 operations from {valid payment (half of them routed to the node with a fee, so that they carry routing work), two-input payment, conflicting spend of a pooled input, duplicate, staging tick (moves received transactions into the pool without a block), bundling tick, peer block confirming a pooled transaction, peer block spending one of the two inputs of a pooled transaction, peer block conflicting with a pooled transaction, invalid peer block, plain peer block, two-block peer fork that reorganises away the last block}. After every operation: no two pooled transactions share a value-carrying input; every pooled transaction validates against the current ledger; reserved inputs (utxo_map) are a subset of the pooled transactions' inputs; cached routing work equals the sum over pooled transactions; a bundling tick either produced a block that the node adopted and whose transactions left the pool, or left the pool unchanged; and a fresh valid payment from an unspent output that no pooled transaction spends enters the pool (tried on a scratch basis: the probe transaction is removed again). distinct_nontrivial = distinct op-sequence digests with >= 1 pool/ledger conflict event.",
+            rule: "run = one real node (consensus processor, timer-driven bundling, real mempool) preloaded with 2-5 blocks; 4..40/120 operations from {valid payment (half of them routed to the node with a fee, so that they carry routing work), two-input payment, conflicting spend of a pooled input, two-input transaction whose second input conflicts with a pooled one, duplicate, staging tick (moves received transactions into the pool without a block), bundling tick, peer block confirming a pooled transaction, peer block spending one of the two inputs of a pooled transaction, peer block conflicting with a pooled transaction, invalid peer block, plain peer block, two-block peer fork that reorganises away the last block}. After every operation: no two pooled transactions share a value-carrying input; every pooled transaction validates against the current ledger; reserved inputs (utxo_map) are a subset of the pooled transactions' inputs; cached routing work equals the sum over pooled transactions; a bundling tick either produced a block that the node adopted and whose transactions left the pool, or left the pool unchanged; and a fresh valid payment from an unspent output that no pooled transaction spends enters the pool (tried on a scratch basis: the probe transaction is removed again). distinct_nontrivial = distinct op-sequence digests with >= 1 pool/ledger conflict event.",
             real: &["Mempool::add_transaction_if_validates/add_transaction/bundle_block/can_bundle_block/delete_transactions", "ConsensusThread::process_event/process_timer_event/bundle_block", "Blockchain::add_blocks_from_mempool/remove_block_transactions/add_block_failure", "Block::create"],
             stubs: &["no network (blocks and transactions are injected at the consensus processor's channel)", "SimClock", "universe builder for peer blocks"],
             assumptions: &["event-granularity scheduling", "the active probe removes its transaction (and reservation) again"],
@@ -200,6 +200,26 @@ impl Scenario for C14 {
                             send_tx(&mut sim, t);
                             conflicts += 1;
                             r.fault("conflicting_tx", 1);
+                        }
+                    }
+                }
+                "tx-conflict-2nd-input" => {
+                    // two inputs of one owner: the first is free, the second is already spent by a pooled /
+                    // staged transaction. The transaction must be refused and must leave nothing behind.
+                    if let Some(victim) = pool_before.iter().chain(staged.iter()).find(|t| !in_keys(t).is_empty()) {
+                        let s2 = victim.from.iter().find(|s| s.amount > 0).unwrap();
+                        let sr2 = SlipRef::from_slip(s2);
+                        if let Some(ui) = w.keys.iter().position(|k| k.pk == sr2.pk) {
+                            let owner = w.keys[ui].clone();
+                            let free: Vec<SlipRef> = if (1..=3).contains(&ui) { free_of(ui) } else { vec![] };
+                            if let Some(sr1) = free.iter().find(|s| s.key() != sr2.key()).cloned() {
+                                tagc += 1;
+                                let mut t = make_tx(&owner, &[sr1.clone(), sr2.clone()], &[(owner.pk, sr1.amount + sr2.amount)], sim.now() + tagc, &tagc.to_le_bytes());
+                                t.generate(&nkey.pk, 0, 0);
+                                send_tx(&mut sim, t);
+                                conflicts += 1;
+                                r.fault("conflicting_tx_on_second_input", 1);
+                            }
                         }
                     }
                 }
